@@ -106,7 +106,7 @@ impl Alphabets {
             }
         }
         let mut labels: Vec<String> = vec![];
-        for s in progs::hostile_names().into_iter().chain(extra_labels()) {
+        for s in progs::hostile_names().into_iter().chain(extra_labels()).chain(progs::escape_pair_names()) {
             if !labels.contains(&s) {
                 labels.push(s);
             }
